@@ -8,8 +8,8 @@ from concurrent.futures import ThreadPoolExecutor
 
 
 def main():
-    variants = ["plain", "asan", "tsan", "flexgen"]
-    with ThreadPoolExecutor(max_workers=4) as ex:
+    variants = ["plain", "asan", "tsan", "flexgen", "smallcap"]
+    with ThreadPoolExecutor(max_workers=5) as ex:
         for v, p in zip(variants, ex.map(common.build, variants)):
             print("built", v, p)
     return 0
